@@ -254,6 +254,7 @@ fn main() {
             let mut rep = Report::new("replay");
             match case["kind"].as_str().unwrap_or("") {
                 "lzma" => d_lzma::replay_value(case, &prop, &mut rep),
+                "ep" => d_lzma::replay_ep(case, &prop, &mut rep),
                 "bytes" => d_lzma::replay_bytes(case, &prop, &mut rep),
                 // fabrication probes depend on object histories: the whole (deterministic) probe set is run again
                 "fab" => d_lzma::fab_probes(&prop, case["seed"].as_u64().unwrap_or(1), case["n"].as_u64().unwrap_or(90) as usize, &mut rep),
